@@ -61,10 +61,12 @@ Definition wf (f : fields) : bool :=
   && is2 (f_hour f) && is2 (f_minute f) && is2 (f_second f)
   && forallb is_dig (f_frac f) && wf_zone (f_zone f).
 Definition G3339 (f : fields) (s : bytes) : Prop := wf f = true /\ s = render f.
-(** the strict RFC 3339 shapes (upper-case 'T' and 'Z', ASCII sign): what a writer must produce *)
+(** the shapes of RFC 3339 proper, without chrono's reading latitude: "T" or "Z" (ABNF literals are
+    case-insensitive, so "t"/"z" too; section 5.6 recommends upper case), ASCII sign, no space: what
+    a writer may produce *)
 Definition strict (f : fields) : bool :=
-  (f_sep f =? 84) &&
-  match f_zone f with Zulu c => c =? 90 | Numeric sg _ _ => (sg =? 0) || (sg =? 1) end.
+  ((f_sep f =? 84) || (f_sep f =? 116)) &&
+  match f_zone f with Zulu _ => true | Numeric sg _ _ => (sg =? 0) || (sg =? 1) end.
 
 (** * Recogniser *)
 Definition digv (c : Z) : option Z := if is_digit c then Some (c - 48) else None.
